@@ -28,6 +28,13 @@ def orientation2d (a b c : V2 K) (eps : K) : TriOrient :=
   else if area2 < -eps then .cw
   else .degenerate
 
+/-- `Triangle::orientation(&self, epsilon)` (`dim2`): the method has its own copy of the body of `orientation2d` -/
+def triOrientation (a b c : V2 K) (eps : K) : TriOrient :=
+  let area2 := (b.sub a).perp (c.sub a)
+  if eps < area2 then .ccw
+  else if area2 < -eps then .cw
+  else .degenerate
+
 /-- `SegmentPointLocation` -/
 inductive SegLoc (K : Type) where
   | onVertex (i : Nat)
